@@ -80,6 +80,41 @@ def rule_placeholder(ctx, fx, config):
               "the placeholder for a cyclic alias does not carry the target's anchor id (anchor fields seen on that edge: %s): a back-reference that crosses another recursive node of the same type is silently rewired to that node" % sorted(set(seen)), config, ctx.where(ni, sb))
 
 
+def rule_anchor_consumed(ctx, fx, config):
+    """ANCHOR: the serializer stages `&aN` for the *next node*.  Every path that writes a scalar consumes the staged anchor
+    before it writes (write_scalar_prefix_if_anchor), otherwise the anchor sticks to whatever node is written next and
+    the alias silently resolves to a neighbour."""
+    S = "<&mut ser::YamlSerializer as serde::Serializer>::"
+    PREFIX = "ser::YamlSerializer::write_scalar_prefix_if_anchor"
+    n = 0
+    for nm in ("bool", "i64", "u64", "i128", "u128", "f32", "f64", "none", "unit"):
+        f = fx.fn(S + "serialize_" + nm)
+        ctx.saw(f)
+        n += 1
+        pre = [b for b, t in f.calls() if fx.callee(t) == PREFIX]
+        writes = [b for b, t in f.calls() if last_seg(fx.callee_decl(t)) in ("write_str", "write_fmt", "write_char") or fx.callee(t).endswith("::push_float_string") or "zmij" in fx.callee(t)]
+        ctx.check(bool(pre) and bool(writes) and all(any(f.dominates(p, w) for p in pre) for w in writes), "ANCHOR", "C14:ANCHOR:scalar-emitter:serialize_%s" % nm, "the staged anchor is emitted before the scalar's text",
+                  "serialize_%s writes its scalar without emitting a staged anchor first: `&aN` sticks to the next node written and the alias resolves to that neighbour" % nm, config, ctx.where(f))
+    f = fx.fn(S + "serialize_str")
+    ctx.saw(f)
+    pre = [b for b, t in f.calls() if fx.callee(t) == PREFIX]
+    for ch, what in (("|", "literal"), (">", "folded")):
+        hs = [b for b, t in f.calls() if last_seg(fx.callee_decl(t)) == "write_char" and len(t["args"]) > 1 and f.sym_operand(t["args"][1])[:2] == ("const", ch)]
+        n += 1
+        ctx.check(bool(hs) and all(any(f.dominates(p, h) for p in pre) for h in hs), "ANCHOR", "C14:ANCHOR:scalar-emitter:serialize_str:%s" % what, "the staged anchor is emitted in front of the `%s` block header" % ch,
+                  "serialize_str writes the `%s` block header without emitting a staged anchor first: an anchored string that takes the %s block style leaves `&aN` to the next node (`a: |…`, `b: &a1 5`, `c: *a1`)" % (ch, what), config, ctx.where(f, hs[0] if hs else None))
+    plain = [b for b, t in f.calls() if fx.callee(t).endswith("::write_plain_or_quoted_value")]
+    ctx.check(bool(plain) and all(any(f.dominates(p, w) for p in pre) for w in plain), "ANCHOR", "C14:ANCHOR:scalar-emitter:serialize_str:plain-or-quoted", "the staged anchor is emitted before a plain / quoted string",
+              "serialize_str writes a plain / quoted string without emitting a staged anchor first", config, ctx.where(f))
+    ctx.floor("ANCHOR.scalar-emitters", n, 11, config)
+    # the absent branch of a weak anchor writes `null` like any value: after the space owed to a preceding `key:`
+    tf = fx.fn("<ser::TupleSer as serde::ser::SerializeTupleStruct>::serialize_field")
+    nulls = [b for b, t in tf.calls() if last_seg(fx.callee_decl(t)) == "write_str" and len(t["args"]) > 1 and tf.sym_operand(t["args"][1])[:2] == ("const", "null")]
+    sp = [b for b, t in tf.calls() if fx.callee(t) == "ser::YamlSerializer::write_space_if_pending"]
+    ctx.check(bool(nulls) and all(any(tf.dominates(p, w) for p in sp) for w in nulls), "ANCHOR", "C14:ANCHOR:dangling-weak-null-spaced", "a dangling weak is written as `null` after the space owed to its key",
+              "the absent branch of the weak-anchor payload writes `null` without write_space_if_pending(): `dead:null` does not read back", config, ctx.where(tf))
+
+
 def _walk(sym):
     if isinstance(sym, tuple):
         yield sym
@@ -93,6 +128,7 @@ def run(ctx):
     for config in ctx.configs:
         fx = ctx.facts(config)
         rule_placeholder(ctx, fx, config)
+        rule_anchor_consumed(ctx, fx, config)
         kinds_adt = [v["name"] for v in fx.adt("anchor_store::AnchorKind")["variants"]]
         store_fields = [x["name"] for x in fx.adt("anchor_store::AnchorStore")["variants"][0]["fields"]]
         ctx.check(sorted(snake(k) for k in kinds_adt) == sorted(store_fields), "TABLE", "C14:TABLE:kinds-vs-store-fields", "one store field per AnchorKind (%s)" % store_fields,
